@@ -152,6 +152,18 @@ theorem after_failure_answers {V G : Type} (prog : Prog V G) (s : VMState V G) (
         · simp [invoke, hsig, hlen, Result.isRet]
     · exact ih _ (invoke_preserves_quiescent prog s' d hq') (invoke_cancelled_mono prog s' d hq' hc') r hr
 
+/-- Every history of invocations is a run of the protocol's transition system (spawn, the core's
+signal, `Wait`'s steps are `Step`s), so the invariants proved over all interleavings (C10, C17)
+hold along it. Callee bodies are arbitrary except that they cannot fabricate a termination. -/
+theorem invocations_are_protocol_runs {V G : Type} (prog : Prog V G) (cs : List (Call V)) (s : VMState V G)
+    (hterm : ∀ f a g k m, (prog.body f a g).res ≠ .fail .terminate k m)
+    (hr : Reach Cfg.fixed s.proto) (hq : s.quiescent) :
+    Reach Cfg.fixed (runHistory Cfg.fixed prog s cs).1.proto := by
+  induction cs generalizing s with
+  | nil => exact hr
+  | cons c cs ih =>
+    exact ih _ (invoke_reach Cfg.fixed prog s c hterm hr hq.2.2) (invoke_preserves_quiescent prog s c hq)
+
 /-! ## Non-vacuity and the regression witnesses of the fixed findings -/
 
 /-- A three-function program over `Int` values with an `Int` counter as globals:
